@@ -117,6 +117,11 @@ class MulticastOutgoingQueue:
             loop.call_at(loop.time() + millis_to_seconds(self.queue[0].send_after - now), self.async_ready)
 
         if answers:  # pragma: no branch
-            # If we have the same answer scheduled to go out, remove them
+            # If we have the same answer scheduled to go out, remove them,
+            # from the other outgoing queue as well: what is multicast now
+            # answers every query that is still waiting for it
             self._remove_answers_from_queue(answers)
+            for queue in (zc.out_queue, zc.out_delay_queue):
+                if queue is not self:
+                    queue._remove_answers_from_queue(answers)
             zc.async_send(construct_outgoing_multicast_answers(answers))
